@@ -14,6 +14,7 @@ of `IncSolver::solve` stops on an unchanged cost); what holds is "quiescent ⇒ 
 import AdaptaVerif.Lemmas.VpscKktOpt
 import AdaptaVerif.Lemmas.VpscKktFresh
 import AdaptaVerif.Lemmas.VpscFinal
+import AdaptaVerif.Lemmas.VpscNonVac
 namespace AdaptaVerif.Props.C02Model
 open AdaptaVerif.Model.Vpsc
 open AdaptaVerif.Lemmas.VpscInv AdaptaVerif.Lemmas.VpscKkt AdaptaVerif.Lemmas.VpscKktOpt
@@ -52,7 +53,7 @@ theorem tree_multipliers_stationary (st : St) (hinv : Inv st) (hstat : BlockStat
     weights, non-zero scales). -/
 theorem quiescent_is_optimum (st : St) (hinv : Inv st)
     (hw : ∀ i : Nat, i < st.vars.size → 0 < (st.vars[i]!).weight)
-    (hs : ∀ i : Nat, (st.vars[i]!).scale ≠ 0)
+    (hs : ∀ i : Nat, i < st.vars.size → (st.vars[i]!).scale ≠ 0)
     (hstat : BlockStationary st) (hq : Quiescent 0 st) :
     KKT (problemOf st) st.pos (lamList st) ∧
     IsOptimum (problemOf st) st.pos ∧
@@ -63,13 +64,26 @@ theorem quiescent_is_optimum (st : St) (hinv : Inv st)
   have hopt := kkt_optimal _ _ _ hWF hk
   exact ⟨hk, hopt, fun y hy i hi => optimum_unique _ hWF y st.pos hy hopt i hi⟩
 
+open AdaptaVerif.Lemmas.VpscNonVac in
+/-- non-vacuity of `quiescent_is_optimum`: every hypothesis holds on `nvSt` (Lemmas/VpscNonVac.lean: the
+    state `IncSolver(vs, cs)` + merge across `x0 + 2 == x1` reaches; scales 1 and 2, one active constraint);
+    the scale hypothesis is the in-range form — the unbounded form is false on every state
+    (`nvSt_scale_unbounded_false`) -/
+example : ∃ st : St, Inv st ∧ (∀ i : Nat, i < st.vars.size → 0 < (st.vars[i]!).weight) ∧
+    (∀ i : Nat, i < st.vars.size → (st.vars[i]!).scale ≠ 0) ∧ BlockStationary st ∧ Quiescent 0 st ∧
+    (∃ j, j < st.cons.size ∧ (st.cons[j]!).active = true) ∧ ¬ ∀ i : Nat, (st.vars[i]!).scale ≠ 0 :=
+  ⟨nvSt, nvSt_inv, nvSt_weight, nvSt_scale, nvSt_stationary, nvSt_quiescent 0,
+    ⟨0, by simp [nvSt_cons], by simp [nvSt_cons]⟩, nvSt_scale_unbounded_false⟩
+open AdaptaVerif.Lemmas.VpscNonVac in
+example := quiescent_is_optimum nvSt nvSt_inv nvSt_weight nvSt_scale nvSt_stationary (nvSt_quiescent 0)
+
 /-- **ε-version** (what the solver's own split test `lm < LAGRANGIAN_TOLERANCE` can promise; take
     `eps = 1e-4 = −LAGRANGIAN_TOLERANCE`): if no active inequality has a multiplier below `−eps`, the
     positions satisfy `KKTeps eps`, cost at most `eps · Σ slack(y)` above any feasible `y`, and lie
     within the `eps_kkt_distance` bound of any exact KKT point. -/
 theorem quiescent_is_eps_optimum (eps : Rat) (heps : 0 ≤ eps) (st : St) (hinv : Inv st)
     (hw : ∀ i : Nat, i < st.vars.size → 0 < (st.vars[i]!).weight)
-    (hs : ∀ i : Nat, (st.vars[i]!).scale ≠ 0)
+    (hs : ∀ i : Nat, i < st.vars.size → (st.vars[i]!).scale ≠ 0)
     (hstat : BlockStationary st) (hq : Quiescent eps st) :
     KKTeps eps (problemOf st) st.pos (lamList st) ∧
     (∀ y, Feasible (problemOf st) y →
@@ -81,6 +95,16 @@ theorem quiescent_is_eps_optimum (eps : Rat) (heps : 0 ≤ eps) (st : St) (hinv 
   have hWF := problemOf_wf st hinv hw
   exact ⟨hk, fun y hy => kktEps_bound eps _ _ _ hWF hk y hy,
     fun xs lams hxs => kktEps_distance eps _ hWF xs lams hxs _ _ hk⟩
+
+open AdaptaVerif.Lemmas.VpscNonVac in
+/-- non-vacuity of `quiescent_is_eps_optimum` (eps = 1e-4 = −LAGRANGIAN_TOLERANCE) on `nvSt` -/
+example : ∃ (eps : Rat) (st : St), 0 ≤ eps ∧ Inv st ∧
+    (∀ i : Nat, i < st.vars.size → 0 < (st.vars[i]!).weight) ∧
+    (∀ i : Nat, i < st.vars.size → (st.vars[i]!).scale ≠ 0) ∧ BlockStationary st ∧ Quiescent eps st :=
+  ⟨1 / 10000, nvSt, by norm_num, nvSt_inv, nvSt_weight, nvSt_scale, nvSt_stationary, nvSt_quiescent _⟩
+open AdaptaVerif.Lemmas.VpscNonVac in
+example := quiescent_is_eps_optimum (1 / 10000) (by norm_num) nvSt nvSt_inv nvSt_weight nvSt_scale
+  nvSt_stationary (nvSt_quiescent _)
 
 /-! ### `dfdv_is_multiplier` -/
 
@@ -94,7 +118,7 @@ open AdaptaVerif.Lemmas.VpscKktDfdv in
     the multipliers that balance `2·w·(pos − desired)` at every variable of the block.
     (All n, m, data, scales ≠ 0; `lm` any array with one entry per constraint.) -/
 theorem dfdv_is_multiplier (st : St) (hinv : Inv st) (hstat : BlockStationary st)
-    (hs : ∀ i : Nat, (st.vars[i]!).scale ≠ 0)
+    (hs : ∀ i : Nat, i < st.vars.size → (st.vars[i]!).scale ≠ 0)
     (bid fuel : Nat) (lm : Array Rat) (post : Array Nat) (v0 : Nat)
     (hv0 : v0 < st.vars.size) (hb : blk st.vars v0 = bid) (hsz : lm.size = st.cons.size)
     (hok : (computeDfdv st bid fuel lm post v0 none).2.2.2 = true) :
@@ -104,6 +128,21 @@ theorem dfdv_is_multiplier (st : St) (hinv : Inv st) (hstat : BlockStationary st
     (∀ j : Nat, (computeDfdv st bid fuel lm post v0 none).1[j]! = lm[j]! ∨
       ((st.cons[j]!).active = true ∧ (computeDfdv st bid fuel lm post v0 none).1[j]! = lamOf st j)) :=
   dfdv_root hinv hstat hs bid fuel lm post v0 hv0 hb hsz hok
+
+open AdaptaVerif.Lemmas.VpscNonVac in
+/-- non-vacuity of `dfdv_is_multiplier`: on `nvSt`, block 0, started at its front variable 0 with fuel
+    `n + 1 = 3` and `lm = #[0]`, all hypotheses hold (the recursion follows the active constraint 0) -/
+example : ∃ (st : St) (bid fuel : Nat) (lm : Array Rat) (post : Array Nat) (v0 : Nat),
+    Inv st ∧ BlockStationary st ∧ (∀ i : Nat, i < st.vars.size → (st.vars[i]!).scale ≠ 0) ∧
+    v0 < st.vars.size ∧ blk st.vars v0 = bid ∧ lm.size = st.cons.size ∧
+    (computeDfdv st bid fuel lm post v0 none).2.2.2 = true ∧
+    (∃ j, j < st.cons.size ∧ (st.cons[j]!).active = true ∧ blk st.vars (st.cons[j]!).l = bid) :=
+  ⟨nvSt, 0, 3, #[0], #[], 0, nvSt_inv, nvSt_stationary, nvSt_scale, by simp [nvSt_vars],
+    by simp [blk, nvSt_vars], by simp [nvSt_cons], nvSt_dfdv_ok,
+    ⟨0, by simp [nvSt_cons], by simp [nvSt_cons], by simp [blk, nvSt_cons, nvSt_vars]⟩⟩
+open AdaptaVerif.Lemmas.VpscNonVac in
+example := dfdv_is_multiplier nvSt nvSt_inv nvSt_stationary nvSt_scale 0 3 #[0] #[] 0 (by simp [nvSt_vars])
+  (by simp [blk, nvSt_vars]) (by simp [nvSt_cons]) nvSt_dfdv_ok
 
 open AdaptaVerif.Lemmas.VpscKktFresh in
 /-- **block position = (AD − AB)/A2 is the stationarity of the block as a whole**: a block whose record
@@ -116,12 +155,28 @@ theorem block_posn_is_stationarity (st : St) (b : Nat) (members : Array Nat)
     (hmem : ∀ x : Nat, x < st.vars.size → (x ∈ members ↔ blk st.vars x = b))
     (hlt : ∀ x ∈ members, x < st.vars.size) (hnd : members.toList.Nodup)
     (hB : ((st.blocks[b]!).scale, (st.blocks[b]!).posn) = blockPosn st.vars members)
-    (hs : ∀ i : Nat, (st.vars[i]!).scale ≠ 0)
+    (hs : ∀ i : Nat, i < st.vars.size → (st.vars[i]!).scale ≠ 0)
     (hA2 : AdaptaVerif.Spec.Qp.listSum (fun i => (st.vars[i]!).weight *
         ((st.vars[members[0]!]!).scale / (st.vars[i]!).scale) *
         ((st.vars[members[0]!]!).scale / (st.vars[i]!).scale)) members.toList ≠ 0) :
     blockSum st.vars (qOf st) b = 0 :=
   fresh_stationary st b members hmem hlt hnd hB hs hA2
+
+open AdaptaVerif.Lemmas.VpscNonVac in
+/-- non-vacuity of `block_posn_is_stationarity`: block 0 of `nvSt` with member list `#[0, 1]` (scales 1, 2;
+    A2 = 5/4, posn = −2/5) satisfies every hypothesis -/
+example : ∃ (st : St) (b : Nat) (members : Array Nat),
+    (∀ x : Nat, x < st.vars.size → (x ∈ members ↔ blk st.vars x = b)) ∧
+    (∀ x ∈ members, x < st.vars.size) ∧ members.toList.Nodup ∧
+    ((st.blocks[b]!).scale, (st.blocks[b]!).posn) = blockPosn st.vars members ∧
+    (∀ i : Nat, i < st.vars.size → (st.vars[i]!).scale ≠ 0) ∧
+    AdaptaVerif.Spec.Qp.listSum (fun i => (st.vars[i]!).weight *
+        ((st.vars[members[0]!]!).scale / (st.vars[i]!).scale) *
+        ((st.vars[members[0]!]!).scale / (st.vars[i]!).scale)) members.toList ≠ 0 :=
+  ⟨nvSt, 0, #[0, 1], nvSt_members, nvSt_members_lt, by simp, nvSt_posn, nvSt_scale, nvSt_A2⟩
+open AdaptaVerif.Lemmas.VpscNonVac in
+example := block_posn_is_stationarity nvSt 0 #[0, 1] nvSt_members nvSt_members_lt (by simp) nvSt_posn
+  nvSt_scale nvSt_A2
 
 
 /-! ### "returns ⇒ optimum" is false: the premature stop of `IncSolver::solve`
